@@ -10,7 +10,7 @@ pub fn gen_big_text(r: &mut Rng) -> String {
         text.push('\u{feff}');
     }
     let eols = ["\n", "\r\n", "\r"];
-    match r.below(4) {
+    match r.below(6) {
         0 => {
             // one very long line (300..3000 columns) between two short ones
             text.push_str("a = 1");
@@ -23,11 +23,44 @@ pub fn gen_big_text(r: &mut Rng) -> String {
             text.push_str("b = é");
         }
         1 => {
-            // very many short lines (300..1500), every now and then a non-ASCII one
+            // very many short lines (300..3000) of random lengths, now and then a non-ASCII one
             let e = r.below(4);
-            for i in 0..r.range(300, 1500) {
-                text.push_str(if i % 97 == 13 { "é = 1" } else if i % 5 == 0 { "" } else { "x" });
-                text.push_str(eols[if e < 3 { e as usize } else { (i % 3) as usize }]);
+            for _ in 0..r.range(300, 3000) {
+                match r.below(12) {
+                    0 => text.push_str("é = 1"),
+                    1 | 2 => {}
+                    3 => text.push_str("😀"),
+                    k => {
+                        for _ in 0..k - 3 {
+                            text.push('x');
+                        }
+                    }
+                }
+                text.push_str(eols[if e < 3 { e as usize } else { r.below(3) as usize }]);
+            }
+        }
+        4 | 5 => {
+            // something interesting placed exactly across a power-of-two offset (block-wise and
+            // word-wise scanners): random short lines up to just below 2^k, padding, then a line
+            // break / multi-byte character straddling the boundary, then some more lines
+            let k = r.range(3, 16);
+            let boundary = 1usize << k;
+            let e = r.below(3) as usize;
+            while text.len() + 12 < boundary {
+                for _ in 0..r.below(9) {
+                    text.push('y');
+                }
+                text.push_str(eols[e]);
+            }
+            let item = *r.pick(&["\r\n", "\r", "\n", "é", "😀", "→", "\r\n\r\n", "\x0c\r\n"]);
+            let before = r.below(item.len() as u64 + 1) as usize; // bytes of the item in front of the boundary
+            while text.len() + before < boundary {
+                text.push('p');
+            }
+            text.push_str(item);
+            for _ in 0..r.range(1, 6) {
+                text.push_str("z = é");
+                text.push_str(eols[e]);
             }
         }
         2 => {
